@@ -12,7 +12,7 @@ fn lic_num(t: &Track) -> u8 { match format!("{}", t.license()).as_str() { "Demo"
 
 pub fn run_c14(a: &Args) {
     let mut areas: HashMap<String, u8> = HashMap::new();
-    let mut check = |b: [u8; 6], st: &mut Stats, areas: &mut HashMap<String, u8>| -> String {
+    let check = |b: [u8; 6], st: &mut Stats, areas: &mut HashMap<String, u8>| -> String {
         match tread(b) {
             None => { st.fail("[C14] Track decoding panics".into(), hex(&b)); "P".into() },
             Some(None) => "E".into(),
